@@ -5,15 +5,16 @@
       within the vector; every import item is linked to its entry of [m_imports]; distinct import items carry
       distinct entries; every live entry is carried by an item; a space that was never flagged for recalculation is
       still imports-first with nothing deleted).  [wf_mk_base], [step_wf], [run_pref_wf].
-   2. [okD02]: the known class D02 as a boolean predicate on the state, and its link to the classifier of
-      CheckReidx.v.  (D06 and D26 are repaired: recalculate_ids drops every deleted item, so the former
-      premises okD06 / okD26 are gone.)
-   3. [reachable_binding]: outside D02, in every reachable state, every live item's id is mapped to the
-      index at which Wasm's index rule - computed from what the model itself emits - finds that very item.
-      The hypothesis [noD02] of ReidxBind.v is *derived* from okD02 + the linkage invariant.
+   2. The import section of the model's output (since the repair of D02 every function / global / memory slot is
+      filled with the next import of that kind in index order): restricted to one kind it lists exactly the live
+      import items of that kind's index space, in index-space order ([import_order_agrees], no premise).  This is
+      the hypothesis [noD02] of ReidxBind.v, *derived* from the linkage invariant.  (D06 / D26 / D02 are repaired:
+      the former premises okD06 / okD26 / okD02 are gone.)
+   3. [reachable_binding]: in every reachable state every live item's id is mapped to the index at which Wasm's
+      index rule - computed from what the model itself emits - finds that very item.
    4. Corollaries in the vocabulary of CheckReidx.v ([designates] on the result of [encode]), loud failure for
       deleted ids, nothing deleted is left. *)
-From Coq Require Import List Arith NArith Bool Lia.
+From Coq Require Import List Arith NArith Bool Lia Permutation.
 Import ListNotations.
 From Orca Require Import Reindex Reorg ReidxProofs ReidxBind CheckReidx.
 Local Open Scope nat_scope.
@@ -638,27 +639,12 @@ Proof.
 Qed.
 
 (* ------------------------------------------------------------------------------------------ *)
-(* 2. the known class D02 as a predicate on the state *)
+(* 2. the import section of the model's output *)
 
-Definition live_ks (l : list item) : list N :=
-  flat_map (fun i => match it_imp i with Some k => if it_del i then [] else [k] | None => [] end) l.
+(* the import entries carried by the live import items of a vector (Reindex.live_imp_ks) *)
+Notation live_ks := live_imp_ks.
 Definition ispace_m (m : mst) (x : sp) : list item * list (N * N) :=
   match index_space (get_sp m x) with Ok r => r | Panic _ => ([], []) end.
-(* not D02: the import entries of the live import items of the index space come in increasing order *)
-Definition okD02 (x : sp) (m : mst) : bool := increasing (live_ks (fst (ispace_m m x))).
-
-(* link with the classifier of CheckReidx.v, which is phrased on a case *)
-Theorem known_D02_link (c : rcase) :
-  known_D02 c = negb (okD02 SF (final_model c) && okD02 SG (final_model c) && okD02 SM (final_model c)).
-Proof.
-  unfold known_D02, okD02, ispace_m, ispace, live_ks. cbn [existsb].
-  repeat match goal with |- context [increasing ?t] => destruct (increasing t) end; reflexivity.
-Qed.
-Corollary not_known_D02 c : known_D02 c = false -> forall x, okD02 x (final_model c) = true.
-Proof.
-  rewrite known_D02_link. intros H x. apply negb_false_iff in H. apply andb_prop in H as [H H3]. apply andb_prop in H as [H1 H2].
-  destruct x; assumption.
-Qed.
 
 (* ------------------------------------------------------------------------------------------ *)
 (* strictly increasing lists of N *)
@@ -676,23 +662,11 @@ Proof.
   intros H1 H2. destruct l as [|b l]; [reflexivity|]. cbn [increasing]. apply andb_true_intro. split; [|exact H2].
   apply N.ltb_lt. apply H1. left. reflexivity.
 Qed.
-(* two strictly increasing lists with the same elements are equal *)
-Lemma inc_ext : forall l1 l2, increasing l1 = true -> increasing l2 = true ->
-  (forall k, In k l1 <-> In k l2) -> l1 = l2.
+Lemma inc_nodup : forall l, increasing l = true -> NoDup l.
 Proof.
-  induction l1 as [|a l1 IH]; intros [|b l2] H1 H2 E.
-  - reflexivity.
-  - exfalso. apply (proj2 (E b)). left. reflexivity.
-  - exfalso. apply (proj1 (E a)). left. reflexivity.
-  - pose proof (inc_lt _ _ H1) as L1. pose proof (inc_lt _ _ H2) as L2.
-    assert (a = b).
-    { destruct (proj1 (E a) (or_introl eq_refl)) as [Hab|Hab]; [congruence|].
-      destruct (proj2 (E b) (or_introl eq_refl)) as [Hba|Hba]; [exact Hba|].
-      pose proof (L2 _ Hab). pose proof (L1 _ Hba). lia. }
-    subst b. f_equal. apply IH; [exact (inc_tail _ _ H1)|exact (inc_tail _ _ H2)|].
-    intros k. split; intros Hk.
-    + destruct (proj1 (E k) (or_intror Hk)) as [->|Hk']; [|exact Hk']. pose proof (L1 _ Hk). lia.
-    + destruct (proj2 (E k) (or_intror Hk)) as [->|Hk']; [|exact Hk']. pose proof (L2 _ Hk). lia.
+  induction l as [|a l IH]; intros H; constructor.
+  - intros Hin. pose proof (inc_lt _ _ H a Hin). lia.
+  - apply IH. exact (inc_tail _ _ H).
 Qed.
 
 (* the positions (as import indices) of the live entries of one kind, and the fingerprints found there *)
@@ -735,14 +709,71 @@ Proof.
   f_equal; [|exact Et]. unfold fpat, nthN. rewrite Nat2N.id, nth_error_app_len. reflexivity.
 Qed.
 
-(* the view of the import section the decoder of the model's output gets, restricted to one kind *)
-Lemma model_imports_kind code (imps : list imp) :
-  map snd (filter (fun i => N.eqb (fst i) code) (map (fun i => (i_sp i, i_fp i)) (filter (fun i => negb (i_del i)) imps)))
-  = map i_fp (filter (kindlive code) imps).
+Lemma posP_length code : forall l n, length (posP code n l) = length (filter (kindlive code) l).
 Proof.
-  induction imps as [|a t IH]; [reflexivity|]. unfold kindlive in *. cbn [filter].
-  destruct (i_del a); cbn [negb]; [rewrite andb_false_r; exact IH|].
-  rewrite andb_true_r. cbn [map filter fst]. destruct (N.eqb (i_sp a) code); cbn [map snd]; [f_equal|]; exact IH.
+  induction l as [|a t IH]; intros n; cbn [posP filter]; [reflexivity|].
+  rewrite app_length, IH. destruct (kindlive code a); reflexivity.
+Qed.
+
+(* the slot-filling import section, restricted to one kind: as long as the queue of that kind is not exhausted
+   (and every queue holds entries of its own kind) the slots of kind [c] receive the queue of kind [c], in order *)
+Definition queues_ok (all : list imp) (qs : N -> list N) : Prop :=
+  forall c k, In k (qs c) -> exists im, nthN all k = Some im /\ i_sp im = c.
+Lemma queues_ok_set all qs c k q : queues_ok all qs -> qs c = k :: q -> queues_ok all (q_set qs c q).
+Proof.
+  intros H E c' k' Hin. unfold q_set in Hin. destruct (N.eqb_spec c' c) as [->|Hne]; [|exact (H c' k' Hin)].
+  apply (H c k'). rewrite E. right. exact Hin.
+Qed.
+Lemma nthN_app_len {A} (pre : list A) x post : nthN (pre ++ x :: post) (lenN pre) = Some x.
+Proof. unfold nthN, lenN. rewrite Nat2N.id. apply nth_error_app_len. Qed.
+(* ImportsID level: the emitted imports whose entry is of kind [c] are the first [number of live slots of kind c]
+   elements of the queue of kind [c] *)
+Lemma import_order_kind_ks (c : N) : forall imps pre qs,
+  queues_ok (pre ++ imps) qs ->
+  length (filter (kindlive c) imps) <= length (qs c) ->
+  filter (fun k => N.eqb (fst (import_at (pre ++ imps) k)) c) (import_order (lenN pre) imps qs)
+  = firstn (length (filter (kindlive c) imps)) (qs c).
+Proof.
+  induction imps as [|s rest IH]; intros pre qs Hq Hlen; [reflexivity|].
+  assert (E : pre ++ s :: rest = (pre ++ [s]) ++ rest) by (rewrite <- app_assoc; reflexivity).
+  assert (El : (lenN pre + 1)%N = lenN (pre ++ [s])) by (unfold lenN; rewrite app_length; cbn; lia).
+  cbn [import_order filter]. unfold kindlive at 1 3. unfold kindlive at 1 in Hlen. cbn [filter] in Hlen.
+  destruct (i_del s) eqn:Ed.
+  - rewrite andb_false_r in *. rewrite El, E. apply IH; [rewrite <- E; exact Hq|exact Hlen].
+  - rewrite andb_true_r in *. destruct (qs (i_sp s)) as [|k q'] eqn:Eq.
+    + (* the fallback: the slot keeps its own entry *)
+      cbn [filter]. unfold import_at at 1. rewrite nthN_app_len. cbn [fst].
+      destruct (N.eqb_spec (i_sp s) c) as [Es|Es].
+      * exfalso. rewrite Es in Eq. rewrite Eq in Hlen. cbn in Hlen. lia.
+      * rewrite El, E. apply IH; [rewrite <- E; exact Hq|exact Hlen].
+    + destruct (Hq (i_sp s) k) as [im [Hk Hs]]; [rewrite Eq; left; reflexivity|].
+      cbn [filter]. unfold import_at at 1. rewrite Hk. cbn [fst]. rewrite Hs.
+      pose proof (queues_ok_set _ _ _ _ _ Hq Eq) as Hq'.
+      destruct (N.eqb_spec (i_sp s) c) as [Es|Es].
+      * rewrite Es in Eq. rewrite Eq in *. cbn [length firstn] in *. f_equal.
+        rewrite El, E. rewrite (IH (pre ++ [s]) (q_set qs (i_sp s) q')).
+        -- unfold q_set. rewrite Es, N.eqb_refl. reflexivity.
+        -- rewrite <- E. exact Hq'.
+        -- unfold q_set. rewrite Es, N.eqb_refl. unfold kindlive. lia.
+      * rewrite El, E. rewrite (IH (pre ++ [s]) (q_set qs (i_sp s) q')).
+        -- unfold q_set. destruct (N.eqb_spec c (i_sp s)) as [Ec|_]; [exfalso; apply Es; symmetry; exact Ec|]. reflexivity.
+        -- rewrite <- E. exact Hq'.
+        -- unfold q_set. destruct (N.eqb_spec c (i_sp s)) as [Ec|_]; [exfalso; apply Es; symmetry; exact Ec|]. exact Hlen.
+Qed.
+Lemma filter_map_fst {A} (f : A -> N * N) (c : N) : forall L,
+  map snd (filter (fun i => N.eqb (fst i) c) (map f L)) = map (fun k => snd (f k)) (filter (fun k => N.eqb (fst (f k)) c) L).
+Proof. induction L as [|a L IH]; [reflexivity|]. cbn [map filter]. destruct (N.eqb (fst (f a)) c); cbn [map]; [f_equal|]; exact IH. Qed.
+Lemma fpat_import_at all k : fpat all k = snd (import_at all k).
+Proof. unfold fpat, import_at. destruct (nthN all k); reflexivity. Qed.
+(* fingerprint level *)
+Lemma import_order_kind (c : N) imps pre qs :
+  queues_ok (pre ++ imps) qs ->
+  length (filter (kindlive c) imps) <= length (qs c) ->
+  map snd (filter (fun i => N.eqb (fst i) c) (map (import_at (pre ++ imps)) (import_order (lenN pre) imps qs)))
+  = map (fpat (pre ++ imps)) (firstn (length (filter (kindlive c) imps)) (qs c)).
+Proof.
+  intros Hq Hlen. rewrite filter_map_fst, (import_order_kind_ks c imps pre qs Hq Hlen).
+  apply map_ext. intros k. symmetry. apply fpat_import_at.
 Qed.
 
 Lemma negb_existsb_false {A} (f : A -> bool) l : negb (existsb f l) = true -> forall i, In i l -> f i = false.
@@ -869,15 +900,60 @@ Proof.
     + rewrite Hi, Hdel. left. reflexivity.
 Qed.
 
-Hypothesis ok02 : increasing (live_ks (spec orig items)) = true.
-
-(* ReidxBind's hypothesis noD02, derived *)
-Theorem import_order_agrees :
-  map i_fp (filter (kindlive code) imps) = map it_fp (Ipart orig items).
+(* distinct live import items carry distinct entries, so the two duplicate-free lists have the same length *)
+Lemma live_ks_nodup_of : forall L, NoDup L -> (forall it, In it L -> In it items) -> NoDup (live_ks L).
 Proof.
-  assert (E : live_ks (spec orig items) = posP code 0 imps)
-    by (apply inc_ext; [exact ok02|apply posP_inc|exact live_ks_set]).
-  rewrite <- (posP_fps code imps []). cbn [app length]. rewrite <- E.
+  induction L as [|a L IH]; intros Hnd Hin; [constructor|].
+  inversion Hnd as [|? ? Ha HndL]; subst. unfold live_imp_ks. cbn [flat_map]. fold (live_ks L).
+  assert (IHL : NoDup (live_ks L)) by (apply IH; [exact HndL|intros it Hit; apply Hin; right; exact Hit]).
+  destruct (it_imp a) as [k|] eqn:Ek; [|exact IHL]. destruct (it_del a); [exact IHL|].
+  cbn [app]. constructor; [|exact IHL]. intros Hk. unfold live_imp_ks in Hk. apply in_flat_map in Hk as [b [Hb Hkb]].
+  destruct (it_imp b) as [kb|] eqn:Ekb; [|contradiction]. destruct (it_del b); [contradiction|].
+  destruct Hkb as [<-|[]].
+  destruct (In_nth_error _ _ (Hin a (or_introl eq_refl))) as [p Hp].
+  destruct (In_nth_error _ _ (Hin b (or_intror Hb))) as [q Hq].
+  assert (p = q) by exact (wf_inj _ _ _ W p q a b kb Hp Hq Ek Ekb). subst q.
+  assert (a = b) by congruence. subst b. exact (Ha Hb).
+Qed.
+Lemma live_ks_length : length (live_ks (spec orig items)) = length (filter (kindlive code) imps).
+Proof.
+  rewrite <- (posP_length code imps 0). apply Permutation_length. apply NoDup_Permutation.
+  - apply live_ks_nodup_of; [|exact spec_incl].
+    exact (NoDup_map_inv _ _ (spec_ids_nodup orig items (wf_ids_nodup _ _ _ W))).
+  - apply inc_nodup. apply posP_inc.
+  - exact live_ks_set.
+Qed.
+Lemma live_ks_kind k : In k (live_ks (spec orig items)) -> exists im, nthN imps k = Some im /\ i_sp im = code.
+Proof.
+  intros H. apply live_ks_set in H. apply posP_in in H as [j [im [-> [Hj Hl]]]].
+  exists im. split; [unfold nthN; cbn; rewrite Nat2N.id; exact Hj|].
+  unfold kindlive in Hl. apply andb_prop in Hl as [Hl _]. apply N.eqb_eq. exact Hl.
+Qed.
+
+(* the emitted imports of this kind are exactly the entries of the live import items of this space's index space, in
+   index-space order *)
+Theorem import_order_ks_agrees (qs : N -> list N) :
+  queues_ok imps qs -> qs code = live_ks (spec orig items) ->
+  filter (fun k => N.eqb (fst (import_at imps k)) code) (import_order 0 imps qs) = live_ks (spec orig items).
+Proof.
+  intros Hq Eq.
+  pose proof (import_order_kind_ks code imps [] qs Hq) as K. cbn [app] in K. change (lenN (@nil imp)) with 0%N in K.
+  rewrite K by (rewrite Eq, live_ks_length; lia).
+  rewrite Eq, <- live_ks_length. apply firstn_all.
+Qed.
+
+(* ReidxBind's hypothesis noD02, derived (unconditionally since the repair of D02): in the slot-filling import
+   section every queue that holds this space's live import entries, in index-space order, comes out as this kind's
+   part of the section *)
+Theorem import_order_agrees (qs : N -> list N) :
+  queues_ok imps qs -> qs code = live_ks (spec orig items) ->
+  map snd (filter (fun i => N.eqb (fst i) code) (map (import_at imps) (import_order 0 imps qs)))
+  = map it_fp (Ipart orig items).
+Proof.
+  intros Hq Eq.
+  pose proof (import_order_kind code imps [] qs Hq) as K. cbn [app] in K. change (lenN (@nil imp)) with 0%N in K.
+  rewrite K by (rewrite Eq, live_ks_length; lia).
+  rewrite Eq, <- live_ks_length, firstn_all.
   rewrite live_ks_fps by exact spec_incl. rewrite spec_split, filter_app.
   rewrite (filter_all _ (Ipart orig items)), (filter_none _ (Lpart orig items)).
   - rewrite app_nil_r. reflexivity.
@@ -886,47 +962,87 @@ Proof.
 Qed.
 
 (* the binding theorem for a well-formed space: no hypothesis on the import list is left *)
-Theorem space_binding l mp : index_space x = Ok (l, mp) ->
+Theorem space_binding (qs : N -> list N) l mp :
+  queues_ok imps qs -> qs code = live_ks (spec orig items) -> index_space x = Ok (l, mp) ->
   forall it, In it items -> it_del it = false ->
   exists q, lookup mp (it_id it) = Some q /\
-            nth_error (map i_fp (filter (kindlive code) imps) ++ emitted_locals l true) (N.to_nat q) = Some (it_fp it).
+            nth_error (map snd (filter (fun i => N.eqb (fst i) code) (map (import_at imps) (import_order 0 imps qs)))
+                       ++ emitted_locals l true) (N.to_nat q) = Some (it_fp it).
 Proof.
-  intros H it Hin Hd. destruct (index_space_wf _ _ H) as [-> ->].
-  exact (live_items_bound orig items (wf_ids_nodup _ _ _ W) _ import_order_agrees it Hin Hd).
+  intros Hq Eq H it Hin Hd. destruct (index_space_wf _ _ H) as [-> ->].
+  exact (live_items_bound orig items (wf_ids_nodup _ _ _ W) _ (import_order_agrees qs Hq Eq) it Hin Hd).
 Qed.
 End OneSpace.
 
 (* ------------------------------------------------------------------------------------------ *)
 (* 3'. the binding theorem for well-formed and for reachable states *)
 
-(* what a decoder of the model's own output sees: the import section ... *)
+(* what a decoder of the model's own output sees: the import section (every function / global / memory slot filled
+   with the next import of its kind in the order of that kind's index space) ... *)
 Definition model_imports (m : mst) : list (N * N) :=
-  map (fun i => (i_sp i, i_fp i)) (filter (fun i => negb (i_del i)) (m_imports m)).
+  map (import_at (m_imports m))
+      (emitted_imports (m_imports m) (fst (ispace_m m SF)) (fst (ispace_m m SG)) (fst (ispace_m m SM))).
 (* ... and Wasm's index rule for one kind: the imports of that kind in import-section order, then the locally
    defined entities the encoder emits for the (reorganised) vector [l] *)
 Definition space_of_model (m : mst) (l : list item) (x : sp) : list N :=
   map snd (filter (fun i => N.eqb (fst i) (sp_code x)) (model_imports m)) ++ emitted_locals l true.
 
-Lemma ok02_unfold m x l mp : index_space (get_sp m x) = Ok (l, mp) -> okD02 x m = increasing (live_ks l).
-Proof. intros H. unfold okD02, ispace_m. rewrite H. reflexivity. Qed.
+Lemma ispace_m_spec m x : wf m ->
+  fst (ispace_m m x) = spec (origN (get_sp m x)) (s_items (get_sp m x)).
+Proof.
+  intros W. destruct (index_space_total _ _ _ (W x)) as [l [mp H]]. unfold ispace_m. rewrite H. cbn [fst].
+  exact (proj1 (index_space_wf _ _ _ (W x) _ _ H)).
+Qed.
+Lemma imp_queues_sp lf lg lm x :
+  imp_queues lf lg lm (sp_code x) = live_ks (match x with SF => lf | SG => lg | SM => lm end).
+Proof. destruct x; reflexivity. Qed.
+(* every queue of the slot-filling holds entries of its own kind *)
+Lemma wf_queues_ok m : wf m ->
+  queues_ok (m_imports m) (imp_queues (fst (ispace_m m SF)) (fst (ispace_m m SG)) (fst (ispace_m m SM))).
+Proof.
+  intros W c k Hin. unfold imp_queues in Hin.
+  destruct (N.eqb_spec c 0) as [->|H0]; [rewrite (ispace_m_spec m SF W) in Hin; exact (live_ks_kind _ _ _ (W SF) k Hin)|].
+  destruct (N.eqb_spec c 1) as [->|H1]; [rewrite (ispace_m_spec m SG W) in Hin; exact (live_ks_kind _ _ _ (W SG) k Hin)|].
+  destruct (N.eqb_spec c 2) as [->|H2]; [rewrite (ispace_m_spec m SM W) in Hin; exact (live_ks_kind _ _ _ (W SM) k Hin)|].
+  contradiction.
+Qed.
+(* the part of the model's import section that Wasm's rule reads for one kind: exactly the live import items of that
+   kind's index space, in index-space order - whatever the order of the import vector (former class D02) *)
+Theorem wf_import_order_agrees m x : wf m ->
+  map snd (filter (fun i => N.eqb (fst i) (sp_code x)) (model_imports m))
+  = map it_fp (Ipart (origN (get_sp m x)) (s_items (get_sp m x))).
+Proof.
+  intros W. unfold model_imports, emitted_imports.
+  apply (import_order_agrees _ _ _ (W x)); [exact (wf_queues_ok m W)|].
+  rewrite imp_queues_sp. rewrite <- (ispace_m_spec m x W). destruct x; reflexivity.
+Qed.
 
-Theorem wf_binding m x : wf m -> okD02 x m = true ->
+Theorem wf_emitted_imports_kind m x : wf m ->
+  filter (fun k => N.eqb (fst (import_at (m_imports m) k)) (sp_code x))
+         (emitted_imports (m_imports m) (fst (ispace_m m SF)) (fst (ispace_m m SG)) (fst (ispace_m m SM)))
+  = live_ks (fst (ispace_m m x)).
+Proof.
+  intros W. unfold emitted_imports. rewrite (ispace_m_spec m x W).
+  apply (import_order_ks_agrees _ _ _ (W x)); [exact (wf_queues_ok m W)|].
+  rewrite imp_queues_sp. rewrite <- (ispace_m_spec m x W). destruct x; reflexivity.
+Qed.
+
+Theorem wf_binding m x : wf m ->
   forall l mp, index_space (get_sp m x) = Ok (l, mp) ->
   forall it, In it (s_items (get_sp m x)) -> it_del it = false ->
   exists q, lookup mp (it_id it) = Some q /\ nthN (space_of_model m l x) q = Some (it_fp it).
 Proof.
-  intros W H2 l mp H it Hin Hd.
-  unfold space_of_model, model_imports, nthN. rewrite model_imports_kind.
-  rewrite (ok02_unfold _ _ _ _ H) in H2.
-  destruct (index_space_wf _ _ _ (W x) _ _ H) as [El _]. rewrite El in H2.
-  exact (space_binding _ _ _ (W x) H2 l mp H it Hin Hd).
+  intros W l mp H it Hin Hd.
+  unfold space_of_model, nthN. rewrite (wf_import_order_agrees m x W).
+  destruct (index_space_wf _ _ _ (W x) _ _ H) as [-> ->].
+  exact (live_items_bound _ _ (wf_ids_nodup _ _ _ (W x)) _ eq_refl it Hin Hd).
 Qed.
 
 (* MAIN THEOREM: in every state reached by an edit history from a well-formed base (in particular from every
-   base the checker builds), outside D02 every live item's id is mapped to the index at which Wasm's rule finds
+   base the checker builds), every live item's id is mapped to the index at which Wasm's rule finds
    that very item in the model's own output. *)
 Theorem reachable_binding : forall base h m rets, wf base -> run_pref base h [] = (m, rets, false) ->
-  forall x, okD02 x m = true ->
+  forall x,
   forall l mp, index_space (get_sp m x) = Ok (l, mp) ->
   forall it, In it (s_items (get_sp m x)) -> it_del it = false ->
   exists q, lookup mp (it_id it) = Some q /\ nthN (space_of_model m l x) q = Some (it_fp it).
@@ -934,7 +1050,7 @@ Proof.
   intros base h m rets Wb Hrun x. exact (wf_binding m x (run_pref_wf _ _ _ _ _ _ Wb Hrun)).
 Qed.
 
-Corollary case_binding (c : rcase) : forall x, okD02 x (final_model c) = true ->
+Corollary case_binding (c : rcase) : forall x,
   forall l mp, index_space (get_sp (final_model c) x) = Ok (l, mp) ->
   forall it, In it (s_items (get_sp (final_model c) x)) -> it_del it = false ->
   exists q, lookup mp (it_id it) = Some q /\ nthN (space_of_model (final_model c) l x) q = Some (it_fp it).
@@ -986,11 +1102,12 @@ Lemma encode_ok m dead sites e : encode m dead sites = Ok e ->
     e_funcs e = emitted_locals lf true /\ e_globals e = emitted_locals lg true /\ e_mems e = emitted_locals lm false.
 Proof.
   unfold encode. intros H.
-  destruct (index_space (m_f m)) as [[lf mf]|]; [|discriminate].
-  destruct (index_space (m_g m)) as [[lg mg]|]; [|discriminate].
-  destruct (index_space (m_m m)) as [[lm mm]|]; [|discriminate].
+  destruct (index_space (m_f m)) as [[lf mf]|] eqn:Hf; [|discriminate].
+  destruct (index_space (m_g m)) as [[lg mg]|] eqn:Hg; [|discriminate].
+  destruct (index_space (m_m m)) as [[lm mm]|] eqn:Hm; [|discriminate].
   match type of H with match ?X with _ => _ end = _ => destruct X; [|discriminate] end.
-  inversion H; subst e. exists lf, mf, lg, mg, lm, mm. cbn. repeat split; reflexivity.
+  inversion H; subst e. exists lf, mf, lg, mg, lm, mm. cbn [e_imports e_funcs e_globals e_mems].
+  unfold model_imports, ispace_m. cbn [get_sp]. rewrite Hf, Hg, Hm. repeat split; reflexivity.
 Qed.
 
 (* memories are emitted without the deleted check; with nothing deleted left this is the same list *)
@@ -1000,13 +1117,13 @@ Proof.
 Qed.
 
 Theorem wf_encode_designates m dead sites e : wf m -> encode m dead sites = Ok e ->
-  forall x, okD02 x m = true ->
+  forall x,
   forall l mp, index_space (get_sp m x) = Ok (l, mp) ->
   forall it, In it (s_items (get_sp m x)) -> it_del it = false ->
   exists q, lookup mp (it_id it) = Some q /\ designates e x q = Some (it_fp it).
 Proof.
-  intros W He x H2 l mp H it Hin Hd.
-  destruct (wf_binding m x W H2 l mp H it Hin Hd) as [q [Hq Hn]].
+  intros W He x l mp H it Hin Hd.
+  destruct (wf_binding m x W l mp H it Hin Hd) as [q [Hq Hn]].
   exists q. split; [exact Hq|].
   destruct (encode_ok _ _ _ _ He) as [lf [mf [lg [mg [lm [mm [Hf [Hg [Hm [Ei [Ef [Eg Em]]]]]]]]]]]].
   unfold designates, space_of. rewrite Ei. unfold space_of_model in Hn.
@@ -1020,7 +1137,7 @@ Qed.
 (* the same for every state reached by a history, and for the final state of every checker case *)
 Theorem encode_designates : forall base h m rets dead sites e,
   wf base -> run_pref base h [] = (m, rets, false) -> encode m dead sites = Ok e ->
-  forall x, okD02 x m = true ->
+  forall x,
   forall l mp, index_space (get_sp m x) = Ok (l, mp) ->
   forall it, In it (s_items (get_sp m x)) -> it_del it = false ->
   exists q, lookup mp (it_id it) = Some q /\ designates e x q = Some (it_fp it).
@@ -1030,7 +1147,7 @@ Qed.
 
 Corollary case_encode_designates (c : rcase) e :
   encode (final_model c) (dead_exports (h_ops c)) (sites c) = Ok e ->
-  forall x, okD02 x (final_model c) = true ->
+  forall x,
   forall l mp, index_space (get_sp (final_model c) x) = Ok (l, mp) ->
   forall it, In it (s_items (get_sp (final_model c) x)) -> it_del it = false ->
   exists q, lookup mp (it_id it) = Some q /\ designates e x q = Some (it_fp it).
@@ -1040,20 +1157,18 @@ Proof. exact (wf_encode_designates _ _ _ e (wf_final_model c)). Qed.
 (* C09: outside D02 the emitted index space IS the reorganised vector, position by position, and that vector holds
    exactly the live items, each once *)
 
-Theorem wf_space_is_index_space m x : wf m -> okD02 x m = true ->
+Theorem wf_space_is_index_space m x : wf m ->
   forall l mp, index_space (get_sp m x) = Ok (l, mp) ->
   space_of_model m l x = map it_fp l /\
   NoDup (map it_id l) /\
   (forall it, In it l <-> In it (s_items (get_sp m x)) /\ it_del it = false) /\
   (forall p it, nth_error l p = Some it -> lookup mp (it_id it) = Some (N.of_nat p)).
 Proof.
-  intros W H2 l mp H.
-  rewrite (ok02_unfold _ _ _ _ H) in H2.
-  destruct (index_space_wf _ _ _ (W x) _ _ H) as [El Emp]. rewrite El in H2.
+  intros W l mp H.
+  destruct (index_space_wf _ _ _ (W x) _ _ H) as [El Emp].
   pose proof (spec_ids_nodup (origN (get_sp m x)) _ (wf_ids_nodup _ _ _ (W x))) as Hnd. rewrite <- El in Hnd.
   split; [|split; [exact Hnd|split]].
-  - unfold space_of_model, model_imports. rewrite model_imports_kind.
-    rewrite (import_order_agrees _ _ _ (W x) H2). rewrite El at 1.
+  - unfold space_of_model. rewrite (wf_import_order_agrees m x W). rewrite El at 1.
     rewrite emitted_locals_spec.
     rewrite <- map_app, <- spec_split, <- El. reflexivity.
   - intros it. split.
@@ -1158,24 +1273,22 @@ Qed.
 
 Theorem l2i_binding m id fp m' r it : wf m -> mstep m (LocalToImport id fp) = Ok (m', r) ->
   nthN (s_items (m_f m)) id = Some it -> is_local it = true ->
-  okD02 SF m' = true ->
   forall l mp, index_space (m_f m') = Ok (l, mp) ->
   exists q, lookup mp id = Some q /\ nthN (space_of_model m' l SF) q = Some fp.
 Proof.
-  intros W H Hit Hl H2 l mp Hs.
+  intros W H Hit Hl l mp Hs.
   destruct (l2i_item _ _ _ _ _ _ H Hit Hl) as [Hnew _].
-  exact (wf_binding m' SF (step_wf _ _ _ _ W H) H2 l mp Hs _ (nth_error_In _ _ Hnew) eq_refl).
+  exact (wf_binding m' SF (step_wf _ _ _ _ W H) l mp Hs _ (nth_error_In _ _ Hnew) eq_refl).
 Qed.
 (* [p] is the FunctionID of the function that is import [k] - the id every use of the import carries *)
 Theorem i2l_binding m k fp m' r p it : wf m -> mstep m (ImportToLocal k fp) = Ok (m', r) ->
   nthN (s_items (m_f m)) p = Some it -> it_imp it = Some k ->
-  okD02 SF m' = true ->
   forall l mp, index_space (m_f m') = Ok (l, mp) ->
   exists q, lookup mp p = Some q /\ nthN (space_of_model m' l SF) q = Some fp.
 Proof.
-  intros W H Hit Hi H2 l mp Hs.
+  intros W H Hit Hi l mp Hs.
   pose proof (i2l_item _ _ _ _ _ _ _ W H Hit Hi) as Hnew.
-  exact (wf_binding m' SF (step_wf _ _ _ _ W H) H2 l mp Hs _ (nth_error_In _ _ Hnew) eq_refl).
+  exact (wf_binding m' SF (step_wf _ _ _ _ W H) l mp Hs _ (nth_error_In _ _ Hnew) eq_refl).
 Qed.
 (* with a non-function import in front: import entry 1 is function 0 *)
 Example i2l_binding_nonfunction_import_in_front :
@@ -1185,12 +1298,10 @@ Example i2l_binding_nonfunction_import_in_front :
 Proof. vm_compute. repeat split; reflexivity. Qed.
 
 (* ------------------------------------------------------------------------------------------ *)
-(* everything in the checker's vocabulary: for every case (any base, any history), outside the class D02 as
-   CheckReidx.v decides it, every live item's id designates - by Wasm's rule applied to what [encode] returns - the
-   entity with that item's fingerprint; deleted ids are unmapped and nothing deleted is left (these two hold
-   unconditionally) *)
+(* everything in the checker's vocabulary: for every case (any base, any history) every live item's id designates - by
+   Wasm's rule applied to what [encode] returns - the entity with that item's fingerprint; deleted ids are unmapped
+   and nothing deleted is left.  No known class is excluded any more (D02, D06, D26 are repaired). *)
 Theorem case_binding_outside_known_classes (c : rcase) e :
-  known_D02 c = false ->
   encode (final_model c) (dead_exports (h_ops c)) (sites c) = Ok e ->
   forall x l mp, index_space (get_sp (final_model c) x) = Ok (l, mp) ->
   (forall it, In it (s_items (get_sp (final_model c) x)) -> it_del it = false ->
@@ -1198,23 +1309,21 @@ Theorem case_binding_outside_known_classes (c : rcase) e :
   (forall it, In it (s_items (get_sp (final_model c) x)) -> it_del it = true -> lookup mp (it_id it) = None) /\
   (forall it, In it l -> it_del it = false).
 Proof.
-  intros K2 He x l mp H.
-  pose proof (not_known_D02 c K2 x) as H2.
+  intros He x l mp H.
   pose proof (wf_final_model c) as W.
   split; [|split].
-  - exact (wf_encode_designates _ _ _ e W He x H2 l mp H).
+  - exact (wf_encode_designates _ _ _ e W He x l mp H).
   - exact (wf_deleted_item_unmapped _ x W l mp H).
   - exact (wf_no_deleted_left _ x W l mp H).
 Qed.
 
 Local Open Scope N_scope.
 (* non-vacuity: a history with a deletion, a conversion in each direction, an added import and added locals lies
-   outside D02, encodes, and the theorem's conclusion is visible on it (id 2 is the deleted one) *)
+   encodes, and the theorem's conclusion is visible on it (id 2 is the deleted one) *)
 Example reachable_binding_nonvacuous :
   let c := mkRC [(0, 1); (1, 2); (0, 3)] [11; 12; 99] [5] [7] 0
              [Delete SF 2; LocalToImport 3 41; AddImport SF 21; AddLocal SG 6; AddImport SM 8; ImportToLocal 0 51]
              [] [] false None false false in
-  known_D02 c = false /\
   map it_fp (s_items (m_f (final_model c))) = [51; 3; 11; 41; 99; 21] /\
   (match encode (final_model c) [] [] with
    | Ok e => map (fun id => match lookup (snd (ispace_m (final_model c) SF)) id with
@@ -1222,28 +1331,32 @@ Example reachable_binding_nonvacuous :
    | Panic _ => []
    end) = [Some 51; Some 3; None; Some 41; Some 99; Some 21].
 Proof. vm_compute. repeat split; reflexivity. Qed.
-(* the hypothesis okD02 cannot be dropped: the same edits with the import added before the conversion (D02) *)
-Example reachable_binding_needs_okD02 :
+(* former D02: the same edits with the import added before the conversion.  The import vector holds the added
+   import (entry 3) before the converted one (entry 4), the index space holds them the other way round; the import
+   section now follows the index space (e_imports lists 41 before 21), so every id still finds its own entity *)
+Example reachable_binding_former_D02_witness :
   let c := mkRC [(0, 1); (1, 2); (0, 3)] [11; 12; 99] [5] [7] 0
              [AddImport SF 21; Delete SF 2; LocalToImport 3 41; AddLocal SG 6; AddImport SM 8; ImportToLocal 0 51]
              [] [] false None false false in
-  okD02 SF (final_model c) = false /\
+  map i_fp (m_imports (final_model c)) = [1; 2; 3; 21; 41; 8] /\
   map it_fp (s_items (m_f (final_model c))) = [51; 3; 11; 41; 99; 21] /\
   (match encode (final_model c) [] [] with
-   | Ok e => map (fun id => match lookup (snd (ispace_m (final_model c) SF)) id with
-                            | Some q => designates e SF q | None => None end) [0; 1; 2; 3; 4; 5]
-   | Panic _ => []
-   end) = [Some 51; Some 3; None; Some 21; Some 99; Some 41].
+   | Ok e => (e_imports e,
+              map (fun id => match lookup (snd (ispace_m (final_model c) SF)) id with
+                             | Some q => designates e SF q | None => None end) [0; 1; 2; 3; 4; 5])
+   | Panic _ => ([], [])
+   end) = ([(1, 2); (0, 3); (0, 41); (0, 21); (2, 8)], [Some 51; Some 3; None; Some 41; Some 99; Some 21]).
 Proof. vm_compute. repeat split; reflexivity. Qed.
 
 Print Assumptions step_wf.
 Print Assumptions run_pref_wf.
 Print Assumptions wf_mk_base.
 Print Assumptions wf_final_model.
-Print Assumptions known_D02_link.
 Print Assumptions index_space_wf.
 Print Assumptions wf_index_space_total.
 Print Assumptions import_order_agrees.
+Print Assumptions wf_import_order_agrees.
+Print Assumptions wf_emitted_imports_kind.
 Print Assumptions space_binding.
 Print Assumptions wf_binding.
 Print Assumptions reachable_binding.
